@@ -269,6 +269,11 @@ func dominatesInstr(a, b ssa.Instruction) bool {
 // count as satisfied (permitted skips); paths ending in panic count as satisfied.
 // It returns false together with the position of an offending exit.
 func mustFollow(start ssa.Instruction, pred func(ssa.Instruction) bool, skip func(from *ssa.BasicBlock, succ int) bool) (bool, ssa.Instruction) {
+	return mustFollowExit(start, pred, skip, nil)
+}
+
+// mustFollowExit is mustFollow with permitted exits: a Return for which okExit is true counts as satisfied.
+func mustFollowExit(start ssa.Instruction, pred func(ssa.Instruction) bool, skip func(from *ssa.BasicBlock, succ int) bool, okExit func(*ssa.Return) bool) (bool, ssa.Instruction) {
 	fn := start.Parent()
 	has := map[*ssa.BasicBlock]bool{}
 	for _, b := range fn.Blocks {
@@ -285,10 +290,17 @@ func mustFollow(start ssa.Instruction, pred func(ssa.Instruction) bool, skip fun
 	}
 	exitOf := func(b *ssa.BasicBlock) (ssa.Instruction, bool) {
 		last := b.Instrs[len(b.Instrs)-1]
-		if _, isRet := last.(*ssa.Return); isRet {
+		if r, isRet := last.(*ssa.Return); isRet {
+			if okExit != nil && okExit(r) {
+				return nil, false
+			}
 			return last, true
 		}
 		return nil, false
+	}
+	permitted := func(b *ssa.BasicBlock) bool {
+		r, isRet := b.Instrs[len(b.Instrs)-1].(*ssa.Return)
+		return isRet && okExit != nil && okExit(r)
 	}
 	blockOK := func(b *ssa.BasicBlock, from int) bool {
 		for i := from; i < len(b.Instrs); i++ {
@@ -298,6 +310,9 @@ func mustFollow(start ssa.Instruction, pred func(ssa.Instruction) bool, skip fun
 		}
 		if _, isRet := exitOf(b); isRet {
 			return false
+		}
+		if permitted(b) {
+			return true
 		}
 		if _, isPanic := b.Instrs[len(b.Instrs)-1].(*ssa.Panic); isPanic {
 			return true
